@@ -60,15 +60,19 @@ func NewWorld(rc *RunCtx, faults sim.Faults) *World {
 // NewClient builds a simulated git-lfs process rooted at dir (dir/.git/lfs is
 // its storage).
 func (w *World) NewClient(id int, dir string, extra map[string]string) *Client {
-	c := &Client{ID: id, Dir: dir}
-	c.GitEnv = map[string]string{
+	gitEnv := map[string]string{
 		"remote.origin.url": w.Srv.APIOrigin + "/repo.git",
 		"http.extraheader":  "X-Sim-Client: " + strconv.Itoa(id),
 	}
 	for k, v := range extra {
-		c.GitEnv[k] = v
+		gitEnv[k] = v
 	}
-	c.OsEnv = map[string]string{"HOME": filepath.Join(dir, "home"), "GIT_TERMINAL_PROMPT": "0"}
+	osEnv := map[string]string{"HOME": filepath.Join(dir, "home"), "GIT_TERMINAL_PROMPT": "0"}
+	return w.newClientFrom(id, dir, gitEnv, osEnv)
+}
+
+func (w *World) newClientFrom(id int, dir string, gitEnv, osEnv map[string]string) *Client {
+	c := &Client{ID: id, Dir: dir, GitEnv: gitEnv, OsEnv: osEnv}
 	ctx := lfshttp.NewContext(nil, c.OsEnv, c.GitEnv)
 	api, err := lfsapi.NewClient(ctx)
 	if err != nil {
